@@ -1,0 +1,6 @@
+//! Declares the `penguin_rs_verif` cfg (external verification hooks) to rustc's
+//! `unexpected_cfgs` lint. It does nothing else.
+fn main() {
+    println!("cargo::rustc-check-cfg=cfg(penguin_rs_verif)");
+    println!("cargo::rerun-if-changed=build.rs");
+}
